@@ -31,6 +31,7 @@ pub fn c15_q_direction_map_stateful() {
     let k1: [u8; 32] = kani::any();
     let k2: [u8; 32] = kani::any();
     let a: [u8; 32] = kani::any();
+    let b: [u8; 32] = kani::any();
     unsafe {
         CKEY[1] = k1;
         CKEY[2] = k2;
@@ -41,7 +42,7 @@ pub fn c15_q_direction_map_stateful() {
     let mut ts = TransportState::verif_from_parts(Box::new(SCipher::<1>), ni, Box::new(SCipher::<2>), nr, HandshakePattern::NN, 4, [0u8; MAXDHLEN], false, initiator);
     let (s0, r0) = (ts.sending_nonce(), ts.receiving_nonce());
     let op: u8 = kani::any();
-    kani::assume(op < 6);
+    kani::assume(op < 8);
     // expected keys of (initiator-egress object 1, responder-egress object 2)
     let (mut e1, mut e2) = (k1, k2);
     match op {
@@ -65,12 +66,21 @@ pub fn c15_q_direction_map_stateful() {
             ts.rekey_manually(Some(&a), None);
             e1 = a;
         },
-        _ => {
+        5 => {
             ts.rekey_manually(None, Some(&a));
             e2 = a;
         },
+        6 => {
+            // both keys in one call
+            ts.rekey_manually(Some(&a), Some(&b));
+            e1 = a;
+            e2 = b;
+        },
+        _ => {
+            ts.rekey_manually(None, None);
+        },
     }
-    kani::cover!(op == 5, "C15 direction map reachable");
+    kani::cover!(op == 6, "C15 direction map reachable");
     assert!(cipher_key(1) == e1 && cipher_key(2) == e2, "C15: rekey changed the wrong direction's key or installed a wrong key");
     assert!(ts.sending_nonce() == s0 && ts.receiving_nonce() == r0, "C15: rekey moved a nonce");
 }
@@ -82,6 +92,7 @@ pub fn c15_q_direction_map_stateless() {
     let k1: [u8; 32] = kani::any();
     let k2: [u8; 32] = kani::any();
     let a: [u8; 32] = kani::any();
+    let b: [u8; 32] = kani::any();
     unsafe {
         CKEY[1] = k1;
         CKEY[2] = k2;
@@ -89,7 +100,7 @@ pub fn c15_q_direction_map_stateless() {
     let initiator: bool = kani::any();
     let mut ts = StatelessTransportState::verif_from_parts(Box::new(SCipher::<1>), Box::new(SCipher::<2>), HandshakePattern::NN, 4, [0u8; MAXDHLEN], false, initiator);
     let op: u8 = kani::any();
-    kani::assume(op < 6);
+    kani::assume(op < 8);
     let (mut e1, mut e2) = (k1, k2);
     match op {
         0 => {
@@ -112,12 +123,21 @@ pub fn c15_q_direction_map_stateless() {
             ts.rekey_manually(Some(&a), None);
             e1 = a;
         },
-        _ => {
+        5 => {
             ts.rekey_manually(None, Some(&a));
             e2 = a;
         },
+        6 => {
+            // both keys in one call
+            ts.rekey_manually(Some(&a), Some(&b));
+            e1 = a;
+            e2 = b;
+        },
+        _ => {
+            ts.rekey_manually(None, None);
+        },
     }
-    kani::cover!(op == 5, "C15 stateless direction map reachable");
+    kani::cover!(op == 6, "C15 stateless direction map reachable");
     assert!(cipher_key(1) == e1 && cipher_key(2) == e2, "C15: stateless rekey changed the wrong direction's key or installed a wrong key");
 }
 
